@@ -137,9 +137,10 @@ func genExchange(t *rapid.T, lc labCfg) exchangeCase {
 	hl, labels = pickHeaders(t, respHeaderPool, 6, "resphdr")
 	r.Header = hl
 	ec.labels = append(ec.labels, labels...)
-	if r.Status == 301 || r.Status == 302 {
-		r.Header = append(r.Header, lab.KV{K: "Location", V: "/next?x=1"})
-	}
+	// fields that carry a URI reference (templates; runExchange resolves the lab's addresses into them per backend)
+	hl, labels = genRefHeaders(t, r.Status, r.Header)
+	r.Header = append(r.Header, hl...)
+	ec.labels = append(ec.labels, labels...)
 	bodiless := r.Status == 204 || r.Status == 304
 	if bodiless {
 		r.Framing = "none"
@@ -285,8 +286,26 @@ func runExchange(l *lab.SocketLab, lc labCfg, ec *exchangeCase, c *conn) string 
 	caseID := l.NextCase()
 	req := ec.Req
 	req.Header = append(append([]lab.KV{}, ec.Req.Header...), lab.KV{K: "X-Verif-Case", V: caseID})
-	script := ec.Resp
-	exs := l.ExpectAll(caseID, &script)
+	// every backend gets its own copy of the script: URI references in the response head are resolved
+	// against the address of the backend that plays it ({self}), a sibling ({peer}) and the front ({front})
+	var clientHost string
+	for _, kv := range ec.Req.Header {
+		if kv.K == "Host" {
+			clientHost = kv.V
+		}
+	}
+	scripts := make([]lab.RespScript, len(l.Backends))
+	var exs []*lab.Exchange
+	for i, b := range l.Backends {
+		scripts[i] = ec.Resp
+		base := ""
+		if i < len(lc.BasePaths) {
+			base = lc.BasePaths[i]
+		}
+		scripts[i].Header = resolveRefs(ec.Resp.Header, b.URL(), l.Backends[(i+1)%len(l.Backends)].URL(), l.Addr, base, clientHost)
+		exs = append(exs, b.Expect(caseID, &scripts[i]))
+	}
+	script := scripts[0]
 	defer l.ForgetAll(caseID)
 	defer func() {
 		for _, ex := range exs {
@@ -350,6 +369,11 @@ func runExchange(l *lab.SocketLab, lc labCfg, ec *exchangeCase, c *conn) string 
 	if out.Close || out.BodyErr != "" {
 		cc.Close()
 		c.cc = nil
+	}
+	for i, ex := range exs {
+		if lab.SeenOf(ex) != nil {
+			script = scripts[i] // the script as the serving backend played it
+		}
 	}
 	viol, _ := judge(lc, &req, &script, exs, out)
 	return viol
